@@ -54,6 +54,11 @@ def run(tier):
     for lvl in (['-O1'], ['-O0']):
         stats, smp, results = runner.relational(rep, progs, variants, 'plain', args_base=lvl, reject_is_violation=True)
         allstats[lvl[0]] = dict(stats); samples += smp[:2]
+    # listing/warning options on the complete peephole family (comment lines sit between the instructions the optimiser pairs up)
+    big = list(families.g_peep(tier)) + list(families.g_peep_random(4242, 3000 if tier == 'quick' else 12000, depth=4))
+    optv = [('plain', [], None), ('insert_code', ['--insert-code'], None), ('insert_code+Wall', ['--insert-code', '-W', 'all'], None)]
+    stats, smp, results = runner.relational(rep, big, optv, 'plain', args_base=['-O1'], reject_is_violation=True)
+    allstats['options/-O1'] = dict(stats); samples += smp[:2]
     tot = lambda k: sum(s.get(k, 0) for s in allstats.values())
     # a variant that is rejected or crashes although the plain source is accepted changes "which declarations exist"
     for lvl, st in allstats.items():
